@@ -16,6 +16,7 @@ import vlib
 import fsharness as H
 from props import _stateful as S
 from props import _infomodel
+from props import _ftp as F
 
 EXTRA_PROOF_MODULES = ("FsProofs.InfoLaws",)
 
@@ -144,7 +145,7 @@ def consistency(f, kind, bad, rep, maxdirs=40):
                     bad.append(("getsize_eq_len_readbytes_eq_details_size", "%r: %r %r %r" % (p, sz, len(data), dsz)))
 
 
-def derived_views(b, snap):
+def derived_views(b, snap, archives=True):
     """read-only and composed views of the state of backend b: (kind, fs, closer)"""
     from fs.wrap import read_only, cache_directory
     from fs.zipfs import ZipFS
@@ -152,7 +153,7 @@ def derived_views(b, snap):
     from fs import copy as C
 
     out = [("ro-" + b.kind, read_only(b.fs), None), ("cachedir-" + b.kind, cache_directory(b.fs), None)]
-    for cls, nm in ((ZipFS, "zip-r"), (TarFS, "tar-r")):
+    for cls, nm in ((ZipFS, "zip-r"), (TarFS, "tar-r")) if archives else ():
         buf = io.BytesIO()
         w = cls(buf, write=True)
         C.copy_fs(b.fs, w)
@@ -167,6 +168,13 @@ def check_state(rep, kind, f, ctx):
     try:
         H.with_watchdog(lambda: consistency(f, kind, bad, rep), 30)
     except Exception as e:  # noqa
+        if "ftp" in kind and type(e).__name__ in ("RemoteConnectionError", "Timeout"):
+            # connection trouble with the loopback server is infrastructure, never a verdict; a run in which it
+            # keeps happening is not evidence of anything
+            rep.count("ftp/connection-error-in-queries")
+            if rep.histogram["ftp/connection-error-in-queries"] > 5:
+                raise vlib.Infra("repeated connection errors / timeouts against the loopback FTP server: %r" % (e,))
+            return []
         bad.append(("query_raises", "%s: %r" % (type(e).__name__, e)))
     rep.programs += 1
     for law, detail in bad[:1]:
@@ -274,50 +282,80 @@ def run(rep, tier, seed, deep=False):
     rep.rule = ("after every %d-th step of %d random histories x %d ops per backend %s, and on read-only / cached / zip / tar views "
                 "of the final state: all query equalities of the property on every directory, file, namespace set %s and page window; "
                 "distinct = distinct (backend, tree) states checked" % (every, n_hist, n_ops, kinds, NS_SETS))
-    rep.assumptions = ["access times may change between two reads and are not compared", "stat/lstat namespaces are backend specific: presence only"]
-    try:
-        for kind in kinds:
-            for h in range(n_hist):
-                b = H.make_backend(kind)
-                try:
+    rep.assumptions = ["access times may change between two reads and are not compared", "stat/lstat namespaces are backend specific: presence only",
+                       "FTPFS (thorough tier only): loopback pyftpdlib 1.5.10 server, MLSD and LIST variants, 60 histories x 15 ops each, names "
+                       "the FTP listing formats carry unambiguously in the random part (others: directed cases); connection errors are infrastructure"]
+    def explore(kind, n_hist, n_ops, every, names, ftp=False):
+        for h in range(n_hist):
+            b = H.make_backend(kind)
+            try:
+                snap = H.snapshot(b.fs)
+                if snap is None:
+                    check_state(rep, kind, b.fs, {"history": [], "note": "initial state could not be snapshotted"})
+                ops = []
+                for i in range(n_ops):
+                    op = H.gen_op(rng, snap or [], names)
+                    if not S.steer(kind, op) or (ftp and not F.steer(kind, op)):
+                        continue
+                    r = H.apply_op(b.fs, op)
+                    if ftp and F.is_conn_error(r):
+                        if not F.server_healthy(b):
+                            raise vlib.Infra("loopback FTP server (%s) died / does not answer during %r: %r" % (kind, op, r[2]))
+                        rep.count("ftp/connection-error-history-abandoned")
+                        snap = None
+                        break
+                    ops.append(H.op_json(op))
+                    if op[0] in ("writebytes", "makedir", "create") and rng.random() < 0.3:
+                        # explicit timestamps, including the epoch itself
+                        try:
+                            b.fs.setinfo(op[1], {"details": {"modified": rng.choice([0, 1, 86400, 1e9]), "accessed": rng.choice([0, 5])}})
+                        except Exception:
+                            pass
                     snap = H.snapshot(b.fs)
                     if snap is None:
-                        check_state(rep, kind, b.fs, {"history": [], "note": "initial state could not be snapshotted"})
-                    ops = []
-                    for i in range(n_ops):
-                        op = H.gen_op(rng, snap or [], H.NAMES)
-                        if not S.steer(kind, op):
-                            continue
-                        H.apply_op(b.fs, op)
-                        ops.append(H.op_json(op))
-                        if op[0] in ("writebytes", "makedir", "create") and rng.random() < 0.3:
-                            # explicit timestamps, including the epoch itself
-                            try:
-                                b.fs.setinfo(op[1], {"details": {"modified": rng.choice([0, 1, 86400, 1e9]), "accessed": rng.choice([0, 5])}})
-                            except Exception:
-                                pass
-                        snap = H.snapshot(b.fs)
-                        if snap is None:
-                            # the generic snapshot walker could not make sense of the filesystem:
-                            # evaluate the query equalities on it before giving up on this history
-                            check_state(rep, kind, b.fs, {"history": ops[-8:], "note": "state could not be snapshotted"})
-                            break
-                        if i % every == every - 1 or i == n_ops - 1:
-                            rep.nontrivial(kind, H.enc_tree(snap))
-                            check_state(rep, kind, b.fs, {"history": ops[-8:]})
-                            if i == n_ops - 1:
-                                query_through_views(rep, kind, b.fs, snap, {"history": ops[-8:]})
-                    if snap:
-                        for vk, vfs, _ in derived_views(b, snap):
-                            rep.nontrivial(vk, H.enc_tree(snap))
-                            check_state(rep, vk, vfs, {"tree": [e[:2] for e in snap][:12]})
+                        # the generic snapshot walker could not make sense of the filesystem:
+                        # evaluate the query equalities on it before giving up on this history
+                        check_state(rep, kind, b.fs, {"history": ops[-8:], "note": "state could not be snapshotted"})
+                        break
+                    if i % every == every - 1 or i == n_ops - 1:
+                        rep.nontrivial(kind, H.enc_tree(snap))
+                        check_state(rep, kind, b.fs, {"history": ops[-8:]})
+                        if i == n_ops - 1 and not ftp:
+                            query_through_views(rep, kind, b.fs, snap, {"history": ops[-8:]})
+                        if ftp:
+                            # what FTPFS shows must be what the server's directory holds (seen through the OS)
+                            disk = H.ftp_os_snapshot(b)
+                            rep.evaluations += 1
+                            if H.canon_tree(snap) != H.canon_tree(disk) and len(rep.violations) < 6:
+                                rep.violation({"backend": kind, "context": {"history": ops[-8:]}, "law": "ftpfs_view_eq_disk",
+                                               "detail": "%r vs %r" % ([e[:2] for e in H.canon_tree(snap)][:12], [e[:2] for e in H.canon_tree(disk)][:12])},
+                                              "%s: FTPFS shows %r, the server's directory holds %r (after %r)" % (
+                                                  kind, [e[:2] for e in H.canon_tree(snap)][:10], [e[:2] for e in H.canon_tree(disk)][:10], ops[-5:]),
+                                              found_input=True, signature="C10/%s/ftpfs_view_eq_disk" % kind)
+                if snap:
+                    for vk, vfs, _ in derived_views(b, snap, archives=not ftp):
+                        rep.nontrivial(vk, H.enc_tree(snap))
+                        check_state(rep, vk, vfs, {"tree": [e[:2] for e in snap][:12]})
+                        if not ftp:
                             query_through_views(rep, vk, vfs, snap, {"tree": [e[:2] for e in snap][:12]})
-                            try:
-                                vfs.close() if vk.endswith("-r") else None
-                            except Exception:
-                                pass
-                finally:
-                    b.close()
+                        try:
+                            vfs.close() if vk.endswith("-r") else None
+                        except Exception:
+                            pass
+            finally:
+                b.close()
+
+    try:
+        for kind in kinds:
+            explore(kind, n_hist, n_ops, every, H.NAMES)
+        if not quick:
+            # FTPFS against a loopback pyftpdlib server (MLSD and LIST variants): thorough tier only, small budget
+            import time as _time
+            t_ftp = _time.time()
+            for kind in F.KINDS:
+                explore(kind, 60 * (3 if deep else 1), 15, 3, F.NAMES, ftp=True)
+            rep.extra["ftp_name_cases"] = F.directed_name_cases(rep, "C10", [n for n in F.ODD_NAMES if "\n" not in n and "\r" not in n])
+            rep.extra["ftp_seconds"] = round(_time.time() - t_ftp, 1)
         info_accessor_grid(rep, rng, 200 if quick else 5000)
         _infomodel.check_info_model(rep, vlib.Driver(), vlib.rng_for(seed, "c10-info"), tier)
         rep.sample({"backend": "mem", "laws": ["listdir_eq_scandir_names", "page_is_slice", "scandir_info_eq_getinfo", "getsize_eq_len_readbytes_eq_details_size"]})
